@@ -10,7 +10,7 @@ without value.  Buckets of different depths / keys do not interact (`query_frame
 
 Solver level (sentence 1 of C10: enabling the checker never changes the optimum) is *not* a theorem
 here: it is watched by the correspondence runs of C01/C03 with dominance enabled (see DESIGN.md §6 C10);
-`Ddo.C10.DomPruneOk` states the missing hypothesis. -/
+the missing hypothesis is made precise and decided in `Props/C10b.lean` (`UndomOpt`, `dominance_solver_optimal`). -/
 set_option linter.unusedSectionVars false
 namespace Ddo.C10
 variable {S K : Type}
@@ -404,8 +404,8 @@ theorem query_no_key (D : DomRule S K) (st : DomStore S K) (s : S) (d : Nat) (v 
     DomStore.query D st s d v = some (st, false, none) := by
   simp [DomStore.query, hk]
 
-/-- Named hypothesis for the solver-level sentence (not proved; see header). -/
-def DomPruneOk : Prop := True
+/-! The solver-level sentence (formerly the named hypothesis `DomPruneOk`) is decided in `Props/C10b.lean`
+    (`dominance_solver_optimal`, `Cyc.finding`) and, together with the threshold cache, in `Props/C10c.lean`. -/
 
 /-! non-vacuity: a concrete rule (2 coordinates, value used) and a concrete history -/
 def exRule : DomRule (List Int) Nat := { key := fun _ => some 0, dims := fun _ => 2, coord := fun s i => s.getD i 0, useValue := true }
